@@ -244,13 +244,17 @@ def main(ctx: Ctx) -> int:
           "required": []}, "hydrogen-early"),
         ({"reactions": [(["GRAIN0", "e-"], ["GRAIN0-"]), (["H", "H"], ["H2"])], "required": []}, "grain"),
         ({"reactions": [(["H", "H"], ["H2"]), (["CO", "H"], ["CO", "H"])], "required": []}, "element-without-atom"),
+        # an element (N) whose atom is NOT a species, carried by species that also hold elements whose atoms ARE species
+        ({"reactions": [(["H", "H"], ["H2"]), (["HCN", "H"], ["CN", "H2"]), (["C", "H"], ["CH"]), (["CN", "H2"], ["HCN", "H"])], "required": []}, "atomless-partial"),
+        # deuterium next to hydrogen (hydrogen nuclei are H only: deuterons are counted under their own element)
+        ({"reactions": [(["D", "H2"], ["HD", "H"]), (["H", "H"], ["H2"]), (["HD", "H"], ["D", "H2"]), (["C", "H"], ["CH"])], "required": []}, "deuterated"),
         # hydrogen carried by ten species, carbon and oxygen by four each (the element sums run over more than one source line)
         ({"reactions": [(["H", "H"], ["H2"]), (["H2", "H+"], ["H3+"]), (["CH", "H"], ["C", "H2"]), (["OH", "H"], ["O", "H2"]), (["H2O", "H"], ["OH", "H2"]),
                         (["CH2", "H"], ["CH", "H2"]), (["H2+", "H2"], ["H3+", "H"]), (["CH+", "H"], ["C+", "H2"]), (["CO", "H3+"], ["HCO+", "H2"])],
           "required": []}, "many-carriers"),
     ]
     randoms = [gen_network(rng) for _ in range(nstat)]
-    O.POOL.update({"GRAIN0": ({"GRAIN": 1}, 0), "GRAIN0-": ({"GRAIN": 1}, -1)})
+    O.POOL.update({"GRAIN0": ({"GRAIN": 1}, 0), "GRAIN0-": ({"GRAIN": 1}, -1), "CN": ({"C": 1, "N": 1}, 0), "HCN": ({"H": 1, "C": 1, "N": 1}, 0)})
     for k in range(nstat + len(special)):
         desc, kind = (randoms[k], "random") if k < nstat else special[k - nstat]
         desc["kind"] = kind
@@ -261,7 +265,7 @@ def main(ctx: Ctx) -> int:
         except Exception as e:   # noqa
             ctx.violation(f"C16|Render|{type(e).__name__}|{kind}", f"{type(e).__name__}: {e}", {"desc": desc})
             continue
-        if k < ndyn or kind in ("grain", "hydrogen-early", "many-carriers"):
+        if k < ndyn or kind in ("grain", "hydrogen-early", "many-carriers", "deuterated"):
             traces += dynamic_traces(ctx, len(traces) + 1, desc, net, k, rng)
         if kind == "random" and k % 2 == 0:
             # a network object, rendered once, then remove_reaction takes an element out of it entirely: the emitted tables must be those
